@@ -422,7 +422,9 @@ def check_grace_monotone(ctx, v):
 def check_bonding_assets(ctx, model, v):
     """instantiate: reject iff len(bonding_assets) > 2; every element native."""
     def is_len(os_):
-        return bool(os_) and all(o.kind == "call" and o.a == "std::vec::Vec::len" for o in os_)
+        # `v.len()` on the vector, or the length of the slice it was passed as (`fn check(assets: &[AssetInfo])`)
+        return bool(os_) and all((o.kind == "call" and o.a in ("std::vec::Vec::len", "std::slice::len")) or
+                                 (o.kind == "arith" and o.a == "PtrMetadata") for o in os_)
     saves = saves_of(v, "whale_lair::state::CONFIG")
     table_check(ctx, "C18-bonding", "whale_lair::contract::instantiate|bonding_assets|limit", v, is_len, [Fraction(2)],
                 lambda x: x <= 2, [b for b, _ in saves], what="number of bonding assets")
